@@ -45,6 +45,15 @@ Perturbations ==
     \cup { [kind |-> "change-attribute",
             muts |-> ReplaceAt(seq, i, [seq[i] EXCEPT !.attrs = [@ EXCEPT !["max_length"] = @ + 5]])]
              : i \in { j \in 1..Len(seq) : seq[j].k \in {"Add", "Chg"} /\ "max_length" \in DOMAIN seq[j].attrs } }
+    \* an attribute the evolution does not mention is stated with a value that is NOT the field type's
+    \* default (db_index=False on a relation, db_index=True / unique=True elsewhere): the evolved
+    \* signature then differs from the models in exactly that attribute
+    \cup { [kind |-> "state-non-default",
+            muts |-> ReplaceAt(seq, p[1], [seq[p[1]] EXCEPT !.attrs = Put(@, p[2], ~AttrDefault(seq[p[1]].ftype, p[2]))])]
+             : p \in { q \in (1..Len(seq)) \X {"db_index", "unique"} :
+                          /\ seq[q[1]].k = "Add" /\ seq[q[1]].ftype # "M2M"
+                          /\ q[2] \notin DOMAIN seq[q[1]].attrs
+                          /\ ~(q[2] = "unique" /\ seq[q[1]].ftype = "O2O") } }
     \cup { [kind |-> "flip-null",
             muts |-> ReplaceAt(seq, i, [seq[i] EXCEPT !.attrs = [@ EXCEPT !["null"] = ~@]])]
              : i \in { j \in 1..Len(seq) : seq[j].k \in {"Add", "Chg"} /\ "null" \in DOMAIN seq[j].attrs } }
